@@ -24,8 +24,9 @@ VARIABLES l,       \* next trace line
           objs,    \* obj -> last observed circuit
           call,    \* the call in progress (or idle)
           hist,    \* obj -> [stage -> outcome record of the last completed call of that stage]
+          expect,  \* "" or "reject": the harness announced a call with parameters the check must reject
           fails    \* contract failures detected at the last consumed event
-vars == <<l, run, scen, params, base, objs, call, hist, fails>>
+vars == <<l, run, scen, params, base, objs, call, hist, expect, fails>>
 
 T == ndJsonDeserialize(IOEnv.TRACE)
 Ev == T[l]
@@ -42,7 +43,7 @@ F(p, why, sig) == [p |-> p, why |-> why, sig |-> sig]
 
 Init == /\ l = 1 /\ run = -1 /\ scen = "" /\ params = <<>> /\ base = NoCirc
         /\ objs = [o \in ObjNames |-> NoCirc] /\ call = Idle
-        /\ hist = [o \in ObjNames |-> NoHist] /\ fails = {}
+        /\ hist = [o \in ObjNames |-> NoHist] /\ expect = "" /\ fails = {}
 
 ---------------------------------------------------------------------------
 (* Per-event contract evaluation *)
@@ -111,8 +112,11 @@ RetFails(c) ==
     FrameFails(c, st = "global") \cup WlFails(c) \cup FiniteFails(c) \cup
     (IF st = "legalize"
      THEN LegalFails("C01", c) \cup OrientFails(call.entry, c) \cup
-          (IF Legal(call.entry) /\ AllRowHigh(call.entry) /\ Positions(c) # Positions(call.entry)
-           THEN {F("C11", <<"legal single-row placement moved">>, C11Signature(params))} ELSE {})
+          (IF Legal(call.entry) /\ AllRowHigh(call.entry)
+           THEN (IF Positions(c) # Positions(call.entry)
+                 THEN {F("C11", <<"legal single-row placement moved">>, C11Signature(params))}
+                 ELSE {F("note", <<"C11 antecedent held">>, "c11-antecedent")})
+           ELSE {})
      ELSE {}) \cup
     (IF st = "detailed"
      THEN LegalFails("C02", c) \cup OrientFails(call.entry, c) \cup
@@ -134,6 +138,9 @@ ThrowFails(c) ==
     LET st == call.stage o == call.obj IN
     FrameFails(c, st = "global") \cup
     (IF call.thrower # "none" THEN {}   \* the harness's own callback threw: covered by the protocol checks (C10)
+     ELSE IF expect = "reject"
+     THEN (IF call.ncb = 0 /\ Placement(c) = Placement(call.entry) THEN {}
+           ELSE {F("C19", <<"rejected parameters: work was done before the rejection", call.ncb>>, "reject-late")})
      ELSE
       (IF st = "legalize"
        THEN (IF Placement(c) # Placement(call.entry)
@@ -153,13 +160,19 @@ ThrowFails(c) ==
 Reset == /\ Is("Reset")
          /\ run' = Ev.run /\ scen' = Ev.scen /\ params' = Ev.params /\ base' = Ev.circ
          /\ objs' = [o \in ObjNames |-> Ev.circ] /\ call' = Idle /\ hist' = [o \in ObjNames |-> NoHist]
-         /\ fails' = WlFails(Ev.circ)
+         /\ fails' = WlFails(Ev.circ) /\ expect' = ""
          /\ l' = l + 1
+
+\* the harness replaced the circuit between calls (a directly constructed placement): new reference for the frame
+Rebase == /\ Is("Rebase") /\ ~call.active
+          /\ base' = Ev.circ /\ objs' = [o \in ObjNames |-> Ev.circ] /\ hist' = [o \in ObjNames |-> NoHist]
+          /\ fails' = WlFails(Ev.circ)
+          /\ l' = l + 1 /\ UNCHANGED <<run, scen, params, call, expect>>
 
 Begin == /\ Is("Begin") /\ ~call.active
          /\ call' = [Idle EXCEPT !.active = TRUE, !.obj = Ev.obj, !.stage = Ev.stage, !.entry = objs[Ev.obj], !.cb = Ev.cb]
          /\ fails' = {}
-         /\ l' = l + 1 /\ UNCHANGED <<run, scen, params, base, objs, hist>>
+         /\ l' = l + 1 /\ UNCHANGED <<run, scen, params, base, objs, hist, expect>>
 
 Cb == /\ Is("Cb") /\ call.active /\ Ev.obj = call.obj
       /\ LET c == Ev.circ step == Ev.step IN
@@ -172,21 +185,22 @@ Cb == /\ Is("Cb") /\ call.active /\ Ev.obj = call.obj
                        !.lastDet = IF step = "Detailed" THEN c ELSE @,
                        !.lastLB = IF step = "LowerBound" THEN c ELSE @, !.hasLB = @ \/ step = "LowerBound",
                        !.lastUB = IF step = "UpperBound" THEN c ELSE @, !.hasUB = @ \/ step = "UpperBound"]
-      /\ l' = l + 1 /\ UNCHANGED <<run, scen, params, base, hist>>
+      /\ l' = l + 1 /\ UNCHANGED <<run, scen, params, base, hist, expect>>
 
 CbThrow == /\ Is("CbThrow") /\ call.active
            /\ call' = [call EXCEPT !.thrower = "callback"]
            /\ fails' = {}
-           /\ l' = l + 1 /\ UNCHANGED <<run, scen, params, base, objs, hist>>
+           /\ l' = l + 1 /\ UNCHANGED <<run, scen, params, base, objs, hist, expect>>
 
 EndReturn == /\ Is("EndReturn") /\ call.active /\ Ev.obj = call.obj
              /\ LET c == Ev.circ IN
                 /\ fails' = RetFails(c) \cup
                             (IF call.thrower # "none" THEN {F("C10", <<"call returned although the callback threw">>, "swallowed")} ELSE {}) \cup
-                            GrammarFails(call.stage, call.steps, call.cb, params)
+                            (IF expect = "reject" THEN {F("C19", <<"a placement call accepted parameters the check must reject">>, "params-accepted")} ELSE {}) \cup
+                            (IF scen \in {"proto", "invalid"} THEN {} ELSE GrammarFails(call.stage, call.steps, call.cb, params))
                 /\ objs' = [objs EXCEPT ![call.obj] = c]
                 /\ hist' = [hist EXCEPT ![call.obj][call.stage] = [done |-> TRUE, ok |-> TRUE, entry |-> call.entry, result |-> c]]
-             /\ call' = Idle
+             /\ call' = Idle /\ expect' = ""
              /\ l' = l + 1 /\ UNCHANGED <<run, scen, params, base>>
 
 EndThrow == /\ Is("EndThrow") /\ call.active /\ Ev.obj = call.obj
@@ -194,14 +208,15 @@ EndThrow == /\ Is("EndThrow") /\ call.active /\ Ev.obj = call.obj
                /\ fails' = ThrowFails(c)
                /\ objs' = [objs EXCEPT ![call.obj] = c]
                /\ hist' = [hist EXCEPT ![call.obj][call.stage] = [done |-> TRUE, ok |-> FALSE, entry |-> call.entry, result |-> c]]
-            /\ call' = Idle
+            /\ call' = Idle /\ expect' = ""
             /\ l' = l + 1 /\ UNCHANGED <<run, scen, params, base>>
 
 \* Fates outside the outcome alphabet of a placement call (C07): abort, sanitizer report, hang.
 BadFate == /\ (Is("Abort") \/ Is("Sanitizer") \/ Is("Timeout"))
-           /\ fails' = {F(IF Ev.e = "Sanitizer" /\ Ev.kind = "tsan" THEN "C08" ELSE "C07",
+           /\ fails' = {F(IF Ev.e = "Sanitizer" /\ Ev.kind = "tsan" THEN "C08"
+                          ELSE IF scen = "invalid" THEN "C19" ELSE IF scen = "proto" THEN "C10" ELSE "C07",
                           <<Ev.e, IF "kind" \in DOMAIN Ev THEN Ev.kind ELSE "", Ev.stderr>>, FateSignature(Ev))}
-           /\ call' = Idle
+           /\ call' = Idle /\ expect' = ""
            /\ l' = l + 1 /\ UNCHANGED <<run, scen, params, base, objs, hist>>
 
 \* Structural setters between calls and inside callbacks (C10, C19)
@@ -212,7 +227,7 @@ Setter == /\ Is("Setter")
              /\ fails' = SetterFails(busy, Ev.kind, Ev.valid, Ev.outcome, objs[o], c)
              /\ objs' = [objs EXCEPT ![o] = c]
              /\ base' = IF ~busy /\ Ev.outcome = "ok" THEN c ELSE base
-          /\ l' = l + 1 /\ UNCHANGED <<run, scen, params, call, hist>>
+          /\ l' = l + 1 /\ UNCHANGED <<run, scen, params, call, hist, expect>>
 
 \* C09: value of an incremental one-dimensional wirelength model after an update; the logged circuit carries the
 \* updated positions, so the contract is simply "value = from-scratch wirelength along that axis".
@@ -220,7 +235,7 @@ Incr == /\ Is("Incr")
         /\ LET c == Ev.circ
                exp == IF Ev.axis = "x" THEN HpwlX(c) ELSE HpwlY(c) IN
            fails' = (IF Ev.val # exp THEN {F("C09", <<"incremental value", Ev.axis, Ev.step, Ev.val, exp>>, "incremental")} ELSE {})
-        /\ l' = l + 1 /\ UNCHANGED <<run, scen, params, base, objs, call, hist>>
+        /\ l' = l + 1 /\ UNCHANGED <<run, scen, params, base, objs, call, hist, expect>>
 
 \* C15: the free segments the code computed for one row, against Geometry.FreeSegments (endpoint-based)
 FreeEv == /\ Is("Free")
@@ -228,9 +243,20 @@ FreeEv == /\ Is("Free")
                  got == { <<Ev.segs[k].x0, Ev.segs[k].x1>> : k \in 1..Len(Ev.segs) } IN
              fails' = (IF got # exp \/ Cardinality(got) # Len(Ev.segs) \/ \E k \in 1..Len(Ev.segs) : Ev.segs[k].o # Ev.row.o
                        THEN {F("C15", <<"free segments", got, "expected", exp>>, "freespace")} ELSE {})
-          /\ l' = l + 1 /\ UNCHANGED <<run, scen, params, base, objs, call, hist>>
+          /\ l' = l + 1 /\ UNCHANGED <<run, scen, params, base, objs, call, hist, expect>>
 
-Next == FreeEv \/ Incr \/ Reset \/ Begin \/ Cb \/ CbThrow \/ EndReturn \/ EndThrow \/ BadFate \/ Setter
+ExpectReject == /\ Is("ExpectReject") /\ ~call.active /\ expect' = "reject" /\ fails' = {}
+                /\ l' = l + 1 /\ UNCHANGED <<run, scen, params, base, objs, call, hist>>
+
+\* C19: the parameter constructor and the parameter check
+ParamsCtor == /\ Is("ParamsCtor")
+              /\ fails' = CtorFails(Ev.which, Ev.effort, Ev.outcome, Ev.passes)
+              /\ l' = l + 1 /\ UNCHANGED <<run, scen, params, base, objs, call, hist, expect>>
+ParamCheck == /\ Is("ParamCheck")
+              /\ fails' = ParamCheckFails(Ev)
+              /\ l' = l + 1 /\ UNCHANGED <<run, scen, params, base, objs, call, hist, expect>>
+
+Next == ExpectReject \/ ParamsCtor \/ ParamCheck \/ Rebase \/ FreeEv \/ Incr \/ Reset \/ Begin \/ Cb \/ CbThrow \/ EndReturn \/ EndThrow \/ BadFate \/ Setter
 Spec == Init /\ [][Next]_vars
 
 ---------------------------------------------------------------------------
